@@ -6,6 +6,7 @@ import (
 	"mime/multipart"
 	"net"
 	"sort"
+	"strconv"
 	"strings"
 	"sync"
 	"time"
@@ -89,6 +90,9 @@ func genC11Req(e *Env, id string) c11Req {
 			r.ctype = "text/x-" + id
 			r.Chunked = e.Chance(25)
 		}
+	}
+	if len(r.Body) <= 64 && r.Kind != "bad" && e.Chance(25) {
+		r.Headers = append(r.Headers, [2]string{"X-Own-Limit", "64"})
 	}
 	if r.Kind == "expect-reject" && r.Method == "GET" {
 		r.Method = "POST"
@@ -179,7 +183,15 @@ func c11Run(e *Env, p *c11Plan) {
 		}
 	}
 	s := &fasthttp.Server{ReduceMemoryUsage: p.ReduceMem, StreamRequestBody: p.Stream, IdleTimeout: time.Minute,
-		ContinueHandler: func(h *fasthttp.RequestHeader) bool { return len(h.Peek("X-Reject")) == 0 }}
+		ContinueHandler: func(h *fasthttp.RequestHeader) bool { return len(h.Peek("X-Reject")) == 0 },
+		// a per-request body limit for requests that ask for one: it must not
+		// stick to the connection
+		HeaderReceived: func(h *fasthttp.RequestHeader) fasthttp.RequestConfig {
+			if v, err := strconv.Atoi(string(h.Peek("X-Own-Limit"))); err == nil && v > 0 {
+				return fasthttp.RequestConfig{MaxRequestBodySize: v}
+			}
+			return fasthttp.RequestConfig{}
+		}}
 	k := NewServerKit(e, s)
 	k.SkipBody = true
 	var mu sync.Mutex
@@ -311,6 +323,9 @@ func c11Run(e *Env, p *c11Plan) {
 		ctx.Response.Header.SetCookie(&c)
 		ctx.SetContentType("x/leak-" + id)
 		ctx.SetStatusCode(201)
+		if strings.HasSuffix(id, "1") || strings.HasSuffix(id, "3") {
+			ctx.Response.Header.SetStatusMessage([]byte("Leak " + id))
+		}
 		ctx.SetBodyString("resp-" + id)
 		ctx.Request.Header.Set("X-Req-Leak", id)
 		ctx.Request.Header.Set("X-Own-0", "mutated-"+id)
@@ -400,6 +415,18 @@ func c11Run(e *Env, p *c11Plan) {
 			mu.Unlock()
 			switch r.Kind {
 			case "normal", "form", "multipart", "hijack":
+				wantLine := "201 Created"
+				if strings.HasSuffix(id, "1") || strings.HasSuffix(id, "3") {
+					wantLine = "201 Leak " + id
+				}
+				if resp.Status == 201 && resp.StatusLine != wantLine {
+					e.Violation("leak/to-client-status-message", "response to %s has status line %q, its handler built %q", id, resp.StatusLine, wantLine)
+					return
+				}
+				if resp.Status >= 400 && r.Kind != "hijack" {
+					e.Violation("dispatch/rejected", "well-formed request %s (%s, %d-byte body) was answered %q without reaching its handler", id, r.Kind, len(r.Body), resp.StatusLine)
+					return
+				}
 				if resp.Status == 201 && string(resp.Body) != "resp-"+id {
 					e.Violation("leak/to-client-body", "response to %s has body %q", id, clip(string(resp.Body), 100))
 					return
